@@ -69,7 +69,7 @@ func ptSQLCase(rng *RNG) (int64, string) {
 		keyOf[int64(i)] = k
 		s.Emit(map[string]any{"id": int64(i), "k": k})
 	}
-	deadline := time.Now().Add(time.Duration(4*sizeMs+1500) * time.Millisecond)
+	deadline := time.Now().Add(time.Duration(4*sizeMs+5000) * time.Millisecond)
 	for time.Now().Before(deadline) {
 		mu.Lock()
 		seen := 0
